@@ -2,11 +2,19 @@
     Statements only; proofs in Proofs/C06*.v.  Carrier [RO] (exact arithmetic).  The inner linear routines
     [solve] / [inv] are parameters of the model (like libm); their defining equations appear as explicit
     hypotheses ([solve_ok], [inv_ok]) to be discharged by C01.
-    Spec objects ([score], [fisher], [penalised_score], [unit_deviance], ...) are in Spec/GLM.v. *)
+    Spec objects ([score], [fisher], [penalised_score], [unit_deviance], ...) are in Spec/GLM.v.
+
+    COMPOSED WITH C01 (last section, theorems [C06_..._composed]; proofs in Proofs/C06_compose.v): [solve] and
+    [inv] are instantiated by C01's models of [solve] and [invert_matrix] ([slice_solve], [slice_invert],
+    Model/SolveInst.v) and [solve_ok] / [inv_ok] are discharged from C01's theorems.  Those theorems assume
+    nothing about the inner routines; what remains is a condition on the data at the iterate: the penalised
+    Fisher information matrix (proved exactly symmetric) has a left inverse. *)
 From Coq Require Import Reals List Arith ZArith Bool.
-From Compute Require Import Base.Ops Base.ListMat Model.Reduce Model.MatMul.
+From Compute Require Import Base.Ops Base.ListMat Model.Reduce Model.MatMul Model.SolveInst.
 From Coq Require Import Permutation.
-From Compute Require Import Generated.glm_families Model.GLM Spec.GLM Proofs.C06_base Proofs.C06 Proofs.C06_infer Proofs.C06_perm.
+From Compute Require Import Generated.glm_families Model.GLM Spec.GLM Proofs.C06_base Proofs.C06 Proofs.C06_infer Proofs.C06_perm
+  Proofs.C06_compose.
+From Compute Require Spec.Factor Spec.Solve.
 Import ListNotations.
 Open Scope R_scope.
 
@@ -234,3 +242,123 @@ Proof. exact d_inv_link_is_derivative. Qed.
 Theorem C06_has_dispersion_table :
   forall f : family, has_dispersion f = true <-> (f = Gaussian \/ f = QuasiPoisson \/ f = Gamma).
 Proof. exact has_dispersion_spec. Qed.
+
+(** ** composed with C01: the inner routines are C01's models of [solve] / [invert_matrix]; nothing is
+    assumed about them.  Data condition, written out in each statement: the penalised information matrix at
+    the iterate has a left inverse  (exists c, c.(I(beta) + alpha I') = identity). *)
+
+(** the penalised information matrix is exactly symmetric (so both routes of C01's [solve] are covered) *)
+Theorem C06_penalised_fisher_symmetric :
+  forall (f : family) (x : list R) (n p : nat) (w : list R) (off : nat -> R) (alpha : R) (beta : list R) (j k : nat),
+    penalised_fisher f x n p w off alpha beta j k = penalised_fisher f x n p w off alpha beta k j.
+Proof. exact penalised_fisher_sym. Qed.
+
+(** at an iterate with nonsingular penalised information C01's [solve] RETURNS on the Newton system, and
+    returns THE solution *)
+Theorem C06_newton_system_solved_composed :
+  forall (f : family) (alpha : R) (x y w : list R) (off : option (list R)) (n p : nat) (beta : list R) (q : quantities),
+    wf_data x y w off n p -> 0 <= alpha -> length beta = p ->
+    at_coef RO f x n p off beta = Some q ->
+    (exists c : list R, forall i j, (i < p)%nat -> (j < p)%nat ->
+       bigsum (fun l => nth (i * p + l) c 0 * penalised_fisher f x n p w (offs off) alpha beta l j) p
+       = if (i =? j)%nat then 1 else 0) ->
+    exists a b s,
+      newton_system RO alpha x y p w beta q = Some (a, b) /\ length a = (p * p)%nat /\ length b = p /\
+      slice_solve RO a b = Some s /\ length s = p /\
+      (forall j, (j < p)%nat -> matvec a p s j = nth j b 0) /\
+      (forall s', length s' = p -> (forall j, (j < p)%nat -> matvec a p s' j = nth j b 0) -> s' = s).
+Proof. intros f alpha x y w off n p beta q W Ha. exact (newton_solved f alpha x y w off n p W Ha beta q). Qed.
+
+(** one pass of the loop body IS the Fisher-scoring update:
+    (information + ridge).(beta - beta') = - penalised score, row by row *)
+Theorem C06_step_is_fisher_scoring_composed :
+  forall (f : family) (alpha tol : R) (x y w : list R) (off : option (list R)) (n p : nat),
+    wf_data x y w off n p -> 0 <= alpha ->
+  forall (beta : list R) (pdev : option R) (beta' : list R) (pd : R) (conv : bool) (q : quantities),
+    length beta = p ->
+    (exists c : list R, forall i j, (i < p)%nat -> (j < p)%nat ->
+       bigsum (fun l => nth (i * p + l) c 0 * penalised_fisher f x n p w (offs off) alpha beta l j) p
+       = if (i =? j)%nat then 1 else 0) ->
+    step RO (slice_solve RO) f alpha tol x y n p w off beta pdev = Some (beta', pd, conv, q) ->
+    length beta' = p /\
+    forall j, (j < p)%nat ->
+      bigsum (fun k => penalised_fisher f x n p w (offs off) alpha beta j k * (nth k beta 0 - nth k beta' 0)) p
+      = - penalised_score f x n p y w (offs off) alpha beta j.
+Proof. exact step_is_fisher_scoring_composed. Qed.
+
+Theorem C06_fixed_point_is_penalised_mle_composed :
+  forall (f : family) (alpha tol : R) (x y w : list R) (off : option (list R)) (n p : nat),
+    wf_data x y w off n p -> 0 <= alpha ->
+  forall (beta : list R) (pdev : option R) (pd : R) (conv : bool) (q : quantities),
+    length beta = p ->
+    (exists c : list R, forall i j, (i < p)%nat -> (j < p)%nat ->
+       bigsum (fun l => nth (i * p + l) c 0 * penalised_fisher f x n p w (offs off) alpha beta l j) p
+       = if (i =? j)%nat then 1 else 0) ->
+    step RO (slice_solve RO) f alpha tol x y n p w off beta pdev = Some (beta, pd, conv, q) ->
+    forall j, (j < p)%nat -> penalised_score f x n p y w (offs off) alpha beta j = 0.
+Proof. exact fixed_point_is_penalised_mle_composed. Qed.
+
+Theorem C06_penalised_mle_is_fixed_point_composed :
+  forall (f : family) (alpha tol : R) (x y w : list R) (off : option (list R)) (n p : nat),
+    wf_data x y w off n p -> 0 <= alpha ->
+  forall (beta : list R) (pdev : option R) (beta' : list R) (pd : R) (conv : bool) (q : quantities),
+    length beta = p ->
+    (exists c : list R, forall i j, (i < p)%nat -> (j < p)%nat ->
+       bigsum (fun l => nth (i * p + l) c 0 * penalised_fisher f x n p w (offs off) alpha beta l j) p
+       = if (i =? j)%nat then 1 else 0) ->
+    (forall j, (j < p)%nat -> penalised_score f x n p y w (offs off) alpha beta j = 0) ->
+    step RO (slice_solve RO) f alpha tol x y n p w off beta pdev = Some (beta', pd, conv, q) ->
+    beta' = beta.
+Proof. exact penalised_mle_is_fixed_point_composed. Qed.
+
+Theorem C06_gaussian_is_ridge_wls_composed :
+  forall (f : family) (alpha tol : R) (x y w : list R) (off : option (list R)) (n p : nat),
+    wf_data x y w off n p -> 0 <= alpha ->
+  forall (beta : list R) (pdev : option R) (beta' : list R) (pd : R) (conv : bool) (q : quantities),
+    f = Gaussian -> length beta = p ->
+    (exists c : list R, forall i j, (i < p)%nat -> (j < p)%nat ->
+       bigsum (fun l => nth (i * p + l) c 0 * penalised_fisher f x n p w (offs off) alpha beta l j) p
+       = if (i =? j)%nat then 1 else 0) ->
+    step RO (slice_solve RO) f alpha tol x y n p w off beta pdev = Some (beta', pd, conv, q) ->
+    forall j, (j < p)%nat ->
+      bigsum (fun k => (bigsum (fun i => X x p i j * (nth i w 0 * X x p i k)) n
+                        + (if (1 <=? j)%nat && (j =? k)%nat then alpha else 0)) * nth k beta' 0) p
+      = bigsum (fun i => X x p i j * (nth i w 0 * (nth i y 0 - offs off i))) n.
+Proof. exact gaussian_step_is_ridge_wls_composed. Qed.
+
+(** the information matrix stored by [fit] (any inner solver) is p x p and exactly symmetric *)
+Theorem C06_fit_info_symmetric :
+  forall (solve : list R -> list R -> option (list R)) (f : family) (alpha tol : R) (w off : option (list R))
+         (x y : list R) (max_iter : nat) (ft : fitted),
+    fit RO solve f alpha tol w off x y max_iter = Some ft -> (0 < f_p ft)%nat ->
+    length (f_info ft) = (f_p ft * f_p ft)%nat /\
+    forall j k, (j < f_p ft)%nat -> (k < f_p ft)%nat ->
+      nth (j * f_p ft + k) (f_info ft) 0 = nth (k * f_p ft + j) (f_info ft) 0.
+Proof. exact fit_info_symmetric. Qed.
+
+(** standard errors with C01's [invert_matrix]: a symmetric information matrix with a left inverse is
+    inverted, and the standard errors are the square roots of dispersion x diagonal of that inverse *)
+Theorem C06_stderr_composed :
+  forall (f : family) (ft : fitted) (disp : R),
+    (0 < f_p ft)%nat -> length (f_info ft) = (f_p ft * f_p ft)%nat ->
+    (forall j k, (j < f_p ft)%nat -> (k < f_p ft)%nat ->
+       nth (j * f_p ft + k) (f_info ft) 0 = nth (k * f_p ft + j) (f_info ft) 0) ->
+    (exists c : list R, forall i j, (i < f_p ft)%nat -> (j < f_p ft)%nat ->
+       bigsum (fun l => nth (i * f_p ft + l) c 0 * nth (l * f_p ft + j) (f_info ft) 0) (f_p ft)
+       = if (i =? j)%nat then 1 else 0) ->
+    dispersion RO f ft = Some disp ->
+    exists iv se,
+      slice_invert RO (f_info ft) = Some iv /\ length iv = (f_p ft * f_p ft)%nat /\
+      (forall j k, (j < f_p ft)%nat -> (k < f_p ft)%nat ->
+         bigsum (fun l => nth (j * f_p ft + l) (f_info ft) 0 * nth (l * f_p ft + k) iv 0) (f_p ft)
+         = if (j =? k)%nat then 1 else 0) /\
+      coef_standard_error RO (slice_invert RO) f ft = Some se /\ length se = f_p ft /\
+      forall j, (j < f_p ft)%nat -> nth j se 0 = R_sqrt.sqrt (disp * nth (j * f_p ft + j) iv 0).
+Proof. exact stderr_composed. Qed.
+
+(** the data condition is satisfiable: intercept-only Gaussian model on three observations *)
+Theorem C06_example_composed :
+  exists c : list R, forall i j, (i < 1)%nat -> (j < 1)%nat ->
+    bigsum (fun l => nth (i * 1 + l) c 0 * penalised_fisher Gaussian [1; 1; 1] 3 1 [1; 1; 1] (offs None) 0 [0] l j) 1
+    = if (i =? j)%nat then 1 else 0.
+Proof. exact info_nonsingular_instance. Qed.
